@@ -152,7 +152,7 @@ class Interp(object):
         if isinstance(e, ast.Name):
             if e.id in env:
                 return env[e.id]
-            if e.id in ('slice', 'int', 'list', 'tuple', 'bool'):
+            if e.id in ('slice', 'int', 'list', 'tuple', 'bool', 'str', 'dict', 'float'):
                 return TypeTok(e.id)
             if e.id in ('True', 'False', 'None'):
                 return {'True': True, 'False': False, 'None': None}[e.id]
@@ -342,5 +342,9 @@ class Interp(object):
                     return bool(names & {'int'})
                 if isinstance(v, (list, tuple)):
                     return bool(names & {type(v).__name__})
+                if isinstance(v, str):
+                    return bool(names & {'str'})
+                if v is None:
+                    return False
                 raise Undecided('isinstance of %r' % (v,))
         raise Undecided('call of %r' % (f,))
